@@ -57,16 +57,25 @@ fn alias_c(native: bool, split: u8, opk: u8, victim_side: Side, under_water: boo
         let v0 = r.w.vamms[0].to_string();
         let (attacker, crafted): (String, String) = if split == 0 {
             ("ice".to_string(), format!("{}al", v0))
+        } else if split == 2 {
+            // an account whose name differs from the victim's only in letter case, on the real vAMM
+            ("Alice".to_string(), v0.clone())
+        } else if split == 3 {
+            ("ALICE".to_string(), v0.clone())
         } else {
             let (head, tail) = v0.split_at(v0.len() - 1);
             (format!("{}alice", tail), head.to_string())
         };
         // the attacker holds collateral (and, for cw20, has approved the engine)
         let give = Uint128::new(500 * d);
-        assert!(r.w.transfer(EVE, &addr(&attacker), give).ok);
+        // (a cw20 token refuses to credit a mixed-case account: such an attacker has no collateral
+        // and can only send the messages that need none)
+        let funded = r.w.transfer(EVE, &addr(&attacker), give).ok;
+        assert!(funded || split >= 2);
         if let Some(t) = r.w.token.clone() {
             let e = r.w.engine.to_string();
-            assert!(r.w.exec(&attacker, &t, &Cw20ExecuteMsg::IncreaseAllowance { spender: e, amount: Uint128::new(u128::MAX >> 8), expires: None }, &[]).ok);
+            let ok = r.w.exec(&attacker, &t, &Cw20ExecuteMsg::IncreaseAllowance { spender: e, amount: Uint128::new(u128::MAX >> 8), expires: None }, &[]).ok;
+            assert!(ok || split >= 2);
         }
         symrt::set_full(true);
         let a = var("amt", 0, 400 * d, 25 * d);
@@ -208,6 +217,15 @@ pub fn scenarios(_seed: u64) -> Vec<Scenario> {
                 v.push(sc("C10", tier, &format!("c10.alias.{}.split{}.{}.victim-under-water", on, split, cn), d, 100, 60, alias_u(native, split, opk as u8, Side::Buy, true)));
             }
         }
+    }
+    let dc = "an account whose name differs from the victim's only in letter case ('Alice' / 'ALICE' vs 'alice') sends each engine message on the real vAMM (and is named in a Liquidate); every stored position of the other accounts must be unchanged";
+    for (native, cn) in [(false, "cw20"), (true, "native")] {
+        for (opk, on) in ops.iter().enumerate() {
+            let tier = if !native || opk == 4 { Tier::Quick } else { Tier::Thorough };
+            v.push(sc("C10", tier, &format!("c10.alias.{}.case.{}", on, cn), dc, 100, 60, alias(native, 2, opk as u8, if opk % 2 == 0 { Side::Buy } else { Side::Sell })));
+            v.push(sc("C10", Tier::Thorough, &format!("c10.alias.{}.upper.{}", on, cn), dc, 100, 60, alias(native, 3, opk as u8, Side::Buy)));
+        }
+        v.push(sc("C10", Tier::Quick, &format!("c10.alias.close.case.{}.victim-under-water", cn), dc, 100, 60, alias_u(native, 2, 2, Side::Buy, true)));
     }
     for (native, cn) in [(false, "cw20"), (true, "native")] {
         for (opk, on) in ops.iter().enumerate() {
